@@ -1939,3 +1939,579 @@ func iterViewOf(c *Ctx, al *ssa.Alloc) (ssa.Value, *ssa.Function) {
 	}
 	return inner, next
 }
+
+// ---- seed round 12 ----------------------------------------------------------------------------------------------------
+
+// C20.tick-chan-open (seed C20-r12m2): the ticker's channel is never closed. A closed C hands every receive a zero "tick" at
+// once (ticks after Stop), and Reset - which is documented to restart a stopped ticker - makes the next callback send on the
+// closed channel: a panic in the timer goroutine.
+func ruleTickChanOpen(c *Ctx, r *R) {
+	n := 0
+	for _, fn := range c.funcsOfPkg("xtime") {
+		k := 0
+		instrs(fn, func(_ *ssa.BasicBlock, _ int, in ssa.Instruction) {
+			call, ok := in.(*ssa.Call)
+			if !ok || len(call.Call.Args) != 1 {
+				return
+			}
+			bi, isB := call.Call.Value.(*ssa.Builtin)
+			if !isB || bi.Name() != "close" {
+				return
+			}
+			ch, isCh := call.Call.Args[0].Type().Underlying().(*types.Chan)
+			if !isCh || !isNamedType(ch.Elem(), "time", "Time") {
+				return
+			}
+			k++
+			n++
+			r.violated(c.nameOf(fn)+"|closes-tick-chan#"+itoa(k), call.Pos(), "the channel that delivers the ticks is closed: every receive from C then yields a zero time at once (ticks after Stop), and the next Reset lets the timer callback send on the closed channel - a panic")
+		})
+	}
+	if n == 0 {
+		r.discharged("xtime|tick-chan-never-closed", token.NoPos, "no close of a chan time.Time anywhere in xtime")
+	}
+}
+
+// C08.ctx-failure-costs-nothing (seed C08-r12m2): a Next that fails only because the per-call context has expired costs
+// nothing. Where a Next of package stream returns ctx.Err() itself, no field of the receiver has been written on the way
+// there: a context test placed after `s.has = false; s.curr = zero` has already thrown the buffered item away.
+func ruleCtxFailureCostsNothing(c *Ctx, r *R) {
+	n := 0
+	for _, fn := range c.funcsOfPkg("stream") {
+		if fn.Parent() != nil || fn.Blocks == nil || fn.Name() != "Next" || fn.Signature.Recv() == nil || len(fn.Params) < 2 {
+			continue
+		}
+		recv := fn.Params[0]
+		isCtxErr := func(v ssa.Value) bool {
+			for _, lf := range valueLeaves(v, nil, 0) {
+				ec, ok := lf.v.(*ssa.Call)
+				if !ok || !ec.Call.IsInvoke() || ec.Call.Method.Name() != "Err" || !isContextType(ec.Call.Value.Type()) {
+					return false
+				}
+			}
+			return true
+		}
+		has := false
+		instrs(fn, func(_ *ssa.BasicBlock, _ int, in ssa.Instruction) {
+			if ret, ok := in.(*ssa.Return); ok && len(ret.Results) == 2 && isCtxErr(returnedValue(ret, 1)) {
+				has = true
+			}
+		})
+		if !has {
+			continue
+		}
+		pf := &PF{N: 2}
+		pf.Instr = func(_ *ssa.Function, in ssa.Instruction, q int) (StateSet, bool) {
+			if st, ok := in.(*ssa.Store); ok {
+				if _, base, ok := rootField(st.Addr); ok && resolveVal(base) == ssa.Value(recv) {
+					return ss(1), true
+				}
+			}
+			return 0, false
+		}
+		k := 0
+		for _, e := range pf.Exits(fn, ss(0)) {
+			if len(e.Ret.Results) != 2 || !isCtxErr(returnedValue(e.Ret, 1)) {
+				continue
+			}
+			k++
+			n++
+			r.ok(!e.States.has(1), c.nameOf(fn)+"|ctx-err-return#"+itoa(k), retPos(e.Ret), "Next returns the expired context's error after it has already changed its own state on that path (an item that was buffered is thrown away before the context is looked at): the failed call has consumed the item, the retry with a live context continues behind it")
+		}
+	}
+	if n == 0 {
+		r.discharged("stream|ctx-err-returns", token.NoPos, "no Next of package stream returns ctx.Err() itself after writing its own fields")
+	}
+}
+
+// C07.reducers-drain (seed C07-r12m1): stream.Collect / Reduce / Last consume the stream: every successful return (nil error)
+// follows the end of the source (its Next answered End) or a hand-over to another reducer of the package - no shortcut for
+// "nothing to keep" (Last(ctx, s, 0) returning at once neither pulls the items nor reports the error the source would have).
+func ruleStreamReducersDrain(c *Ctx, r *R) {
+	for _, name := range []string{"stream.Collect", "stream.Reduce", "stream.Last"} {
+		fn := c.fn(name)
+		if fn == nil {
+			r.undecided(name+"|missing", token.NoPos, "anchor not found")
+			continue
+		}
+		sp := streamParamOf(fn)
+		if sp == nil {
+			r.undecided(name+"|param", fn.Pos(), "stream parameter not found")
+			continue
+		}
+		n := 0
+		for _, e := range drainExits(fn, sp, 0) {
+			if len(e.Ret.Results) == 0 || !isNilConst(returnedValue(e.Ret, len(e.Ret.Results)-1)) {
+				continue // an error is handed on: other rules
+			}
+			n++
+			r.ok(e.States == ss(1), name+"|drains#"+itoa(n), retPos(e.Ret), funcShort(fn)+" reports success on a path on which the stream was not read to its end (its Next has not answered End, and it was not handed to a reducer that drains it): the items are not consumed and an error the source would have returned is never seen")
+		}
+		if n == 0 {
+			r.undecided(name+"|returns", fn.Pos(), "no successful return found")
+		}
+	}
+}
+
+// drainExits: the exits of fn with the typestate "the stream sp has been read to its end" (state 1) or not (state 0). The end
+// is reached on the edge on which sp.Next answered End, by handing sp to a reducer of the package, on the edge on which a
+// helper of the package that was handed sp answered a nil error (every nil-error exit of the helper is itself in state 1), and
+// on the edge on which such a helper's boolean "there was an item" result is false.
+func drainExits(fn *ssa.Function, sp *ssa.Parameter, depth int) []pfExit {
+	isSrc := func(v ssa.Value) bool {
+		for _, lf := range valueLeaves(v, nil, 0) {
+			if resolveVal(lf.v) != ssa.Value(sp) {
+				return false
+			}
+		}
+		return true
+	}
+	// helperOf: v is (a result of) a call of a helper of the package that is handed the source
+	helperOf := func(v ssa.Value) (h *ssa.Function, hp *ssa.Parameter, idx int, ok bool) {
+		idx = -1
+		if ex, isEx := v.(*ssa.Extract); isEx {
+			idx = ex.Index
+			v = ex.Tuple
+		}
+		call, isCall := v.(*ssa.Call)
+		if !isCall || call.Call.IsInvoke() || depth > 2 {
+			return nil, nil, 0, false
+		}
+		cal := staticCallee(&call.Call)
+		if cal == nil || cal.Blocks == nil || rootFn(origin(cal)).Pkg != rootFn(fn).Pkg || origin(cal) == origin(fn) {
+			return nil, nil, 0, false
+		}
+		for ai, a := range call.Call.Args {
+			if isSrc(a) && ai < len(cal.Params) {
+				if idx < 0 {
+					idx = 0
+				}
+				return cal, cal.Params[ai], idx, true
+			}
+		}
+		return nil, nil, 0, false
+	}
+	helperDrains := func(h *ssa.Function, hp *ssa.Parameter, boolIdx int) bool {
+		any := false
+		for _, e := range drainExits(h, hp, depth+1) {
+			nres := len(e.Ret.Results)
+			if nres == 0 {
+				return false
+			}
+			errv := returnedValue(e.Ret, nres-1)
+			if !isNamedType(errv.Type(), "", "error") && !types.Identical(errv.Type(), types.Universe.Lookup("error").Type()) {
+				return false
+			}
+			if !isNilConst(errv) {
+				continue // the helper hands an error on: the caller's err != nil side
+			}
+			if boolIdx >= 0 {
+				if k, isK := returnedValue(e.Ret, boolIdx).(*ssa.Const); isK && k.Value != nil && constant.BoolVal(k.Value) {
+					continue // "there was an item"
+				}
+			}
+			any = true
+			if e.States != ss(1) {
+				return false
+			}
+		}
+		return any
+	}
+	pf := &PF{N: 2}
+	pf.Instr = func(_ *ssa.Function, in ssa.Instruction, q int) (StateSet, bool) {
+		call, ok := in.(*ssa.Call)
+		if !ok || call.Call.IsInvoke() {
+			return 0, false
+		}
+		cal := staticCallee(&call.Call)
+		if cal == nil || cal.Blocks == nil || rootFn(origin(cal)).Pkg != rootFn(fn).Pkg || origin(cal) == origin(fn) {
+			return 0, false
+		}
+		for _, a := range call.Call.Args {
+			if isSrc(a) {
+				switch fname(cal) {
+				case "Reduce", "Collect", "Last":
+					return ss(1), true
+				}
+			}
+		}
+		return 0, false
+	}
+	pf.Edge = func(_ *ssa.Function, g guard, q int) (StateSet, bool) {
+		// `ok` of item, ok, err := nextItem(ctx, s) on its false edge
+		cond, val := g.cond, g.val
+		for {
+			if u, isNot := cond.(*ssa.UnOp); isNot && u.Op == token.NOT {
+				cond, val = u.X, !val
+				continue
+			}
+			break
+		}
+		if bt, isB := cond.Type().Underlying().(*types.Basic); isB && bt.Kind() == types.Bool && !val {
+			if h, hp, idx, ok := helperOf(cond); ok && helperDrains(h, hp, idx) {
+				return ss(1), true
+			}
+		}
+		cf, ok := g.asCmp()
+		if !ok || cf.op != token.EQL {
+			return 0, false
+		}
+		if isNilConst(cf.y) {
+			// err == nil for the error a helper that was handed the source answered
+			if h, hp, idx, ok := helperOf(cf.x); ok {
+				if idx == h.Signature.Results().Len()-1 && helperDrains(h, hp, -1) {
+					return ss(1), true
+				}
+			}
+			return 0, false
+		}
+		if !strings.HasSuffix(path(cf.y), "End") {
+			return 0, false
+		}
+		ex, ok := cf.x.(*ssa.Extract)
+		if !ok {
+			return 0, false
+		}
+		nx, ok := ex.Tuple.(*ssa.Call)
+		if !ok || !nx.Call.IsInvoke() || nx.Call.Method.Name() != "Next" || !isSrc(nx.Call.Value) {
+			return 0, false
+		}
+		return ss(1), true
+	}
+	return pf.Exits(fn, ss(0))
+}
+
+// C07.buffer-index-guarded (seed C07-r12m2): a constant index into a slice kept in a field of a stream / iterator wrapper
+// (s.buffer[0]) is dominated by a test that the slice holds that many items: a refill that is not repeated until it brings
+// something leaves the buffer empty when the source yields an empty slice, and the index panics where the empty slice should
+// have been skipped.
+func ruleBufferIndexGuarded(c *Ctx, r *R) {
+	n := 0
+	for _, rel := range []string{"stream", "iterator"} {
+		for _, fn := range c.funcsOfPkg(rel) {
+			if fn.Parent() != nil || fn.Blocks == nil || fn.Name() != "Next" || fn.Signature.Recv() == nil || len(fn.Params) == 0 {
+				continue
+			}
+			recv := fn.Params[0]
+			k := 0
+			instrs(fn, func(b *ssa.BasicBlock, _ int, in ssa.Instruction) {
+				ia, ok := in.(*ssa.IndexAddr)
+				if !ok {
+					return
+				}
+				idx, isK := ia.Index.(*ssa.Const)
+				if !isK || idx.Value == nil {
+					return
+				}
+				ld, ok := ia.X.(*ssa.UnOp)
+				if !ok || ld.Op != token.MUL {
+					return
+				}
+				fa, ok := ld.X.(*ssa.FieldAddr)
+				if !ok || resolveVal(fa.X) != ssa.Value(recv) {
+					return
+				}
+				if _, isSlice := ld.Type().Underlying().(*types.Slice); !isSlice {
+					return
+				}
+				fld := fieldName(fa.X.Type(), fa.Field)
+				ki := int(idx.Int64())
+				k++
+				n++
+				lo := 0
+				for _, g := range guardsOf(b) {
+					cf, ok := g.asCmp()
+					if !ok {
+						continue
+					}
+					x, y, op := cf.x, cf.y, cf.op
+					isLen := func(v ssa.Value) bool {
+						lc, ok := v.(*ssa.Call)
+						if !ok || len(lc.Call.Args) != 1 {
+							return false
+						}
+						bi, isB := lc.Call.Value.(*ssa.Builtin)
+						return isB && bi.Name() == "len" && strings.HasSuffix(path(lc.Call.Args[0]), "."+fld)
+					}
+					if !isLen(x) && isLen(y) {
+						x, y, op = y, x, flipCmp(op)
+					}
+					kc, isKc := y.(*ssa.Const)
+					if !isLen(x) || !isKc || kc.Value == nil {
+						continue
+					}
+					// the test must be fresh: no store to the field between it and the index
+					fresh := true
+					if g.blk != nil {
+						for _, bb := range fn.Blocks {
+							if bb == g.blk {
+								continue
+							}
+							// bb lies on a path from the test to the index that does not come back through the test
+							if !reachesAvoiding(g.blk, bb, g.blk) || !(bb == b || reachesAvoiding(bb, b, g.blk)) {
+								continue
+							}
+							for _, in2 := range bb.Instrs {
+								if st, isSt := in2.(*ssa.Store); isSt {
+									if f2, base, ok := rootField(st.Addr); ok && f2 == fld && resolveVal(base) == ssa.Value(recv) {
+										if bb != b || idxIn(st) < idxIn(ia) {
+											fresh = false
+										}
+									}
+								}
+							}
+						}
+					}
+					if !fresh {
+						continue
+					}
+					cv := int(kc.Int64())
+					switch op {
+					case token.EQL, token.GEQ:
+						if cv > lo {
+							lo = cv
+						}
+					case token.GTR:
+						if cv+1 > lo {
+							lo = cv + 1
+						}
+					case token.NEQ:
+						if cv == 0 && lo < 1 {
+							lo = 1
+						}
+					}
+				}
+				r.ok(lo > ki, c.nameOf(fn)+"|index:"+fld+"["+itoa(ki)+"]#"+itoa(k), ia.Pos(), "s."+fld+"["+itoa(ki)+"] is read without a test, still valid at that point, that the slice holds more than "+itoa(ki)+" items: after a refill that brought an empty slice the index panics (the empty slice should have been skipped)")
+			})
+		}
+	}
+	if n == 0 {
+		r.undecided("stream|buffer-index", token.NoPos, "no constant index into a buffered slice found")
+	}
+}
+
+var _ = late(func() {
+	properties["C20"].Rules = append(properties["C20"].Rules,
+		&Rule{ID: "C20.tick-chan-open", Floor: 1, Clause: "no function of xtime closes a chan time.Time: the ticker's channel stays open - a closed C yields zero ticks after Stop, and Reset after such a Stop makes the callback send on a closed channel", Run: ruleTickChanOpen})
+	properties["C08"].Rules = append(properties["C08"].Rules,
+		&Rule{ID: "C08.ctx-failure-costs-nothing", Floor: 1, Clause: "where a Next of package stream returns ctx.Err() itself, no field of its receiver has been written on that path: a context test placed behind the hand-out of a buffered item loses that item to a call that only failed on an expired context", Run: ruleCtxFailureCostsNothing})
+	properties["C07"].Rules = append(properties["C07"].Rules,
+		&Rule{ID: "C07.reducers-drain", Floor: 3, Clause: "every successful return of stream.Collect / Reduce / Last follows the end of the source (Next answered End) or a hand-over to a reducer of the package that drains it: no shortcut that returns without reading the stream (Last(ctx, s, 0))", Run: ruleStreamReducersDrain},
+		&Rule{ID: "C07.buffer-index-guarded", Floor: 1, Clause: "a constant index into a slice kept in a field of a stream / iterator wrapper is dominated by a still-valid test that the slice holds that many items (FlattenSlices' s.buffer[0] after a refill that may have brought an empty slice)", Run: ruleBufferIndexGuarded})
+})
+
+// C01.no-node-copy (seed C01-r12m2): a B-tree node is only ever used through its pointer. A method of node with a value
+// receiver (`func (x node[K, V]) leaf() bool`), or any other load of a whole node, copies all its key, value and child slots:
+// the descent of one Put then reads the value slot another goroutine's overwriting Put is writing - the data race the map's
+// "distinct existing keys may be written concurrently" rules out.
+func ruleNoNodeCopy(c *Ctx, r *R) {
+	n := 0
+	isNode := func(t types.Type) bool {
+		nt, ok := t.(*types.Named)
+		if !ok || nt.Obj().Pkg() == nil || !strings.HasSuffix(nt.Obj().Pkg().Path(), "container/tree") {
+			return false
+		}
+		st, ok := nt.Underlying().(*types.Struct)
+		if !ok {
+			return false
+		}
+		// the node type: a struct that holds arrays (keys / values / children)
+		for i := 0; i < st.NumFields(); i++ {
+			if _, isArr := st.Field(i).Type().Underlying().(*types.Array); isArr {
+				return true
+			}
+		}
+		return false
+	}
+	for _, fn := range c.funcsOfPkg("container/tree") {
+		for _, f := range withAnon(fn) {
+			if f.Blocks == nil {
+				continue
+			}
+			if f.Signature.Recv() != nil && isNode(f.Signature.Recv().Type()) {
+				n++
+				r.violated(c.nameOf(f)+"|value-receiver", f.Pos(), "a method of the node type with a value receiver: every call copies the whole node (all key, value and child slots), so a descent reads value slots that a concurrent overwriting Put of another key in the same node writes - a data race")
+				continue
+			}
+			k := 0
+			instrs(f, func(_ *ssa.BasicBlock, _ int, in ssa.Instruction) {
+				v, ok := in.(ssa.Value)
+				if !ok || !isNode(v.Type()) {
+					return
+				}
+				if ld, isLd := in.(*ssa.UnOp); isLd && ld.Op == token.MUL {
+					k++
+					n++
+					r.violated(c.nameOf(f)+"|node-copy#"+itoa(k), in.Pos(), "a whole node is loaded by value (all its key, value and child slots are read): next to a concurrent overwriting Put of a key in that node this is a data race")
+				}
+			})
+		}
+	}
+	if n == 0 {
+		r.discharged("tree|nodes-by-pointer", token.NoPos, "no value-receiver method on the node type and no load of a whole node anywhere in container/tree")
+	}
+}
+
+var _ = late(func() {
+	properties["C01"].Rules = append(properties["C01"].Rules,
+		&Rule{ID: "C01.no-node-copy", Floor: 1, Clause: "nodes are used through their pointer only: no value-receiver method on the node type and no load of a whole node (a copy reads every value slot, racing with a concurrent overwriting Put of another key in the node)", Run: ruleNoNodeCopy})
+})
+
+// C19.std-namesake-forwarders (seed C19-r12m1): a helper that hands its work to its standard-library namesake (xslices.Grow ->
+// slices.Grow, xslices.Index -> slices.Index, ...) does so on every path, with its own parameters in order, and returns what the
+// namesake returns: a "fast path" in front of the call (`if n <= cap(s) { return s }`) answers for the namesake with another rule.
+func ruleStdNamesakeForwarders(c *Ctx, r *R) {
+	n := 0
+	for _, rel := range []string{"xslices", "xsort", "xmaps", "xmath"} {
+		for _, fn := range c.funcsOfPkg(rel) {
+			if fn.Parent() != nil || fn.Blocks == nil || fn.Signature.Recv() != nil || !token.IsExported(fn.Name()) {
+				continue
+			}
+			var calls []*ssa.Call
+			instrs(fn, func(_ *ssa.BasicBlock, _ int, in ssa.Instruction) {
+				call, ok := in.(*ssa.Call)
+				if !ok {
+					return
+				}
+				cal := staticCallee(&call.Call)
+				if cal == nil || cal.Pkg == nil && origin(cal).Pkg == nil {
+					return
+				}
+				o := origin(cal)
+				if o.Pkg == nil || o.Name() != fn.Name() {
+					return
+				}
+				switch o.Pkg.Pkg.Path() {
+				case "slices", "maps", "sort", "cmp", "math":
+					calls = append(calls, call)
+				}
+			})
+			if len(calls) == 0 {
+				continue
+			}
+			// only the plain forwarders: the helper's own parameters, in order, are the namesake's arguments (helpers that adapt an
+			// argument - a less function turned into a cmp function - have obligations of their own)
+			var call *ssa.Call
+			for _, cc := range calls {
+				okArgs := len(cc.Call.Args) == len(fn.Params)
+				if okArgs {
+					for i, a := range cc.Call.Args {
+						if resolveVal(a) != ssa.Value(fn.Params[i]) {
+							okArgs = false
+						}
+					}
+				}
+				if okArgs && call == nil {
+					call = cc
+				}
+			}
+			if call == nil {
+				continue
+			}
+			n++
+			key := c.nameOf(fn) + "|forwards"
+			if len(calls) != 1 {
+				r.violated(key, calls[1].Pos(), funcShort(fn)+" calls its standard-library namesake more than once")
+				continue
+			}
+			bad := token.NoPos
+			nret := 0
+			instrs(fn, func(_ *ssa.BasicBlock, _ int, in ssa.Instruction) {
+				ret, ok := in.(*ssa.Return)
+				if !ok {
+					return
+				}
+				nret++
+				for i := range ret.Results {
+					for _, lf := range valueLeaves(returnedValue(ret, i), nil, 0) {
+						v := lf.v
+						if ex, isEx := v.(*ssa.Extract); isEx && ex.Index == i {
+							v = ex.Tuple
+						}
+						if v != ssa.Value(call) && bad == token.NoPos {
+							bad = retPos(ret)
+						}
+					}
+				}
+			})
+			if bad == token.NoPos && call.Block() != fn.Blocks[0] {
+				bad = call.Pos()
+			}
+			r.ok(bad == token.NoPos && nret > 0, key, bad, funcShort(fn)+" forwards to its standard-library namesake, but not on every path / not returning the namesake's own result: an answer of its own in front of the call (a \"fast path\") replaces the documented behaviour by another rule")
+		}
+	}
+	if n == 0 {
+		r.undecided("xslices|forwarders", token.NoPos, "no helper forwarding to a standard-library namesake found")
+	}
+}
+
+// C19.no-shared-generator (seed C19-r12m2): the generator-less helpers of xrand (Shuffle, Sample, ...) may be called from any
+// number of goroutines, like the top-level functions of math/rand they stand on. A package-level *rand.Rand (or rand.Source)
+// is not safe for concurrent use: read outside a held mutex it corrupts its state under concurrent calls (index out of range
+// panics, results that are no permutation).
+func ruleNoSharedGenerator(c *Ctx, r *R) {
+	sp := c.SSA["xmath/xrand"]
+	if sp == nil {
+		r.undecided("xrand|missing", token.NoPos, "package xmath/xrand not loaded")
+		return
+	}
+	isGen := func(t types.Type) bool {
+		if p, ok := t.(*types.Pointer); ok {
+			t = p.Elem()
+		}
+		return isNamedType(t, "math/rand", "Rand") || isNamedType(t, "math/rand", "Source") || isNamedType(t, "math/rand", "Source64") ||
+			isNamedType(t, "math/rand/v2", "Rand") || isNamedType(t, "math/rand/v2", "Source")
+	}
+	n := 0
+	var names []string
+	for name := range sp.Members {
+		names = append(names, name)
+	}
+	sort.Strings(names)
+	for _, name := range names {
+		g, ok := sp.Members[name].(*ssa.Global)
+		if !ok {
+			continue
+		}
+		pt, ok := g.Type().(*types.Pointer)
+		if !ok || !isGen(pt.Elem()) {
+			continue
+		}
+		for _, fn := range c.funcsOfPkg("xmath/xrand") {
+			for _, f := range withAnon(fn) {
+				if f.Name() == "init" {
+					continue
+				}
+				k := 0
+				instrs(f, func(b *ssa.BasicBlock, _ int, in ssa.Instruction) {
+					ld, ok := in.(*ssa.UnOp)
+					if !ok || ld.Op != token.MUL || ld.X != ssa.Value(g) {
+						return
+					}
+					locked := false
+					instrs(f, func(b2 *ssa.BasicBlock, _ int, in2 ssa.Instruction) {
+						if lc, ok := in2.(*ssa.Call); ok {
+							if cal := lc.Call.StaticCallee(); cal != nil && cal.Name() == "Lock" && cal.Signature.Recv() != nil && isNamedType(cal.Signature.Recv().Type(), "sync", "Mutex") {
+								if b2 == b && idxIn(in2) < idxIn(in) || b2 != b && b2.Dominates(b) {
+									locked = true
+								}
+							}
+						}
+					})
+					k++
+					n++
+					r.ok(locked, c.nameOf(f)+"|shared-generator:"+name+"#"+itoa(k), in.Pos(), "the package-level generator "+name+" (a *rand.Rand / Source, not safe for concurrent use) is used without a held mutex: concurrent calls of the generator-less helpers corrupt its state (panics, results that are not permutations / distinct positions)")
+				})
+			}
+		}
+	}
+	if n == 0 {
+		r.discharged("xrand|no-shared-generator", token.NoPos, "xrand keeps no package-level *rand.Rand / rand.Source: the generator-less helpers stand on math/rand's own concurrency-safe top-level functions")
+	}
+}
+
+var _ = late(func() {
+	properties["C19"].Rules = append(properties["C19"].Rules,
+		&Rule{ID: "C19.std-namesake-forwarders", Floor: 5, Clause: "a helper that forwards to its standard-library namesake (xslices.Grow -> slices.Grow, ...) does so in its entry block with its own parameters in order and every return hands back the namesake's result: no answer of its own in front of the call", Run: ruleStdNamesakeForwarders},
+		&Rule{ID: "C19.no-shared-generator", Floor: 1, Clause: "xrand keeps no package-level *rand.Rand / rand.Source that is used outside a held mutex: the generator-less helpers stay safe for concurrent use like math/rand's top-level functions", Run: ruleNoSharedGenerator})
+})
